@@ -197,8 +197,7 @@ def inputs_changed(inputs, snap):
 HMC_STEP_FAIL = "Failed to take step within maximum allowed attempts"
 
 
-class StepExhausted(Exception):
-    """HamiltonianChain's documented 'failed to take step' error: legitimate end of a history."""
+StepExhausted = rctx.StepExhausted
 
 
 def _guard_hmc(fn, *a, **k):
